@@ -247,6 +247,14 @@ def run(ctx):
             oks = call is not None and is_call(call, "fsm::Fsm::schedule")
             ctx.ob("R16.3", site_key(ex, "timer closure removes its own id from its own session's table"), okk and okr and oks, line_of(par),
                    "key is the send's own id: %s; table belongs to a clone of datamodel.global_s(): %s; closure is the schedule callback: %s" % (okk, okr, oks))
+            # the entry is forgotten BEFORE the event is handed to the I/O processor: once the event is out, the receiving session may
+            # execute a new delayed <send> with the same id, and a later remove would drop (= cancel) that new guard
+            if cl is not None:
+                idx = hirq.order_index(ex)
+                sends = [c for c in hirq.walk(cl["body"]) if c.get("k") == "mcall" and (c.get("p") or "").endswith("EventIOProcessor::send")]
+                okorder = bool(sends) and all(idx[id(par)] < idx[id(s)] for s in sends)
+                ctx.ob("R16.3", site_key(ex, "timer closure forgets its guard before it sends"), okorder, line_of(par),
+                       "delayed_send.remove %s the processor send in the timer callback (%d send call(s))" % ("precedes" if okorder else "does NOT precede", len(sends)))
         # insert
         for fn, n, par in sites.get((EXEC, False, "insert"), []):
             okk = some_of(ex, par["a"][0]) == sidb
